@@ -740,6 +740,13 @@ def gen_ops(rng, name, nops, p_bad=0.04, incr=0):
                 cols = break_columns(rng, cols)
             elif rng.random() < 0.45:
                 cols = omit_optional(rng, name, cols, rows)
+            elif rng.random() < 0.08:
+                # a REQUIRED column left out: TypeError before anything is changed
+                fdef, ropt = OPTIONAL[name]
+                req = [("f", j) for j in range(nf) if j not in fdef] + [("r", j) for j in range(nr) if j not in ropt]
+                if req:
+                    kind, j = rng.choice(req)
+                    cols[kind][j] = None
             op = [k, cols]
         elif k == "packset":
             j = rng.randrange(nr)
